@@ -1747,6 +1747,8 @@ impl TestTextSelection for TextSelection {
                     let l = reftextsel.begin - self.end;
                     if l == 0 {
                         true
+                    } else if l > WHITESPACE_LIMIT {
+                        false
                     } else {
                         if let Ok(gap) =
                             resource.text_by_offset(&Offset::simple(self.end, reftextsel.begin))
@@ -1771,6 +1773,8 @@ impl TestTextSelection for TextSelection {
                     let l = self.begin - reftextsel.end;
                     if l == 0 {
                         true
+                    } else if l > WHITESPACE_LIMIT {
+                        false
                     } else {
                         if let Ok(gap) =
                             resource.text_by_offset(&Offset::simple(reftextsel.end, self.begin))
@@ -1924,6 +1928,8 @@ impl TestTextSelection for TextSelection {
                         false
                     } else if leftmost == self.end {
                         true
+                    } else if leftmost - self.end > WHITESPACE_LIMIT {
+                        false
                     } else {
                         if let Ok(gap) =
                             resource.text_by_offset(&Offset::simple(self.end, leftmost))
@@ -1958,6 +1964,8 @@ impl TestTextSelection for TextSelection {
                         false
                     } else if rightmost == self.begin {
                         true
+                    } else if self.begin - rightmost > WHITESPACE_LIMIT {
+                        false
                     } else {
                         if let Ok(gap) =
                             resource.text_by_offset(&Offset::simple(rightmost, self.begin))
